@@ -81,13 +81,36 @@ func callBoth(a []w.Val) w.Val {
 	return out
 }
 
-// OverlapSequence([[fn, a, b], ...]): the calls performed back to back in one invocation.
+// OverlapSequence([[fn, a, b], ...]): the calls performed back to back in one invocation — a HISTORY. The caller behaves like a program that
+// owns two argument buffers: every list argument of the sequence is copied into the SAME backing array as the previous step's (same pointer, often the
+// same length, other contents: "the caller mutates its own input between calls"), and after each call the buffers are scribbled over (the caller
+// mutating its arguments after the call). A library that keeps a reference to its input, or recognises "the same slice", answers from stale state.
+// The results are booleans: there is no returned slice/object to mutate.
 // The shrinker may propose argument vectors that are no longer well-shaped calls (a dropped field); those are answered with Nil, which the
 // dispatch entry refuses as "not a case".
 func callSeq(a []w.Val) w.Val {
 	calls, ok := a[0].(w.List)
 	if !ok {
 		return w.Nil{}
+	}
+	var bufs [2][]string
+	bufs[0], bufs[1] = make([]string, 0, 256), make([]string, 0, 256)
+	fill := func(i int, v w.Val) []string {
+		src := strs(v)
+		if cap(bufs[i]) < len(src) {
+			bufs[i] = make([]string, 0, 2*len(src))
+		}
+		bufs[i] = bufs[i][:len(src)]
+		copy(bufs[i], src)
+		return bufs[i]
+	}
+	scribble := func() {
+		for i := range bufs {
+			full := bufs[i][:cap(bufs[i])]
+			for j := range full {
+				full[j] = "scribbled/by/the/caller"
+			}
+		}
 	}
 	out := make(w.List, 0, len(calls))
 	for _, c := range calls {
@@ -100,9 +123,10 @@ func callSeq(a []w.Val) w.Val {
 		if !ok || !known {
 			return w.Nil{}
 		}
+		pair := name == "CheckExtendedSpatialIdsOverlap" || name == "CheckSpatialIdsOverlap"
 		for _, x := range p[1:] {
 			_, isStr := x.(w.Str)
-			if isStr != (name == "CheckExtendedSpatialIdsOverlap" || name == "CheckSpatialIdsOverlap") {
+			if isStr != pair {
 				return w.Nil{}
 			}
 			if l, isList := x.(w.List); isList {
@@ -111,11 +135,169 @@ func callSeq(a []w.Val) w.Val {
 						return w.Nil{}
 					}
 				}
+			} else if _, isNil := x.(w.Nil); !isStr && !isNil {
+				return w.Nil{}
 			}
 		}
-		out = append(out, f(p[1], p[2]))
+		switch {
+		case pair:
+			out = append(out, f(p[1], p[2]))
+		case name == "CheckSpatialIdsArrayOverlap":
+			out = append(out, res(detector.CheckSpatialIdsArrayOverlap(fill(0, p[1]), fill(1, p[2]))))
+		default:
+			out = append(out, res(detector.CheckExtendedSpatialIdsArrayOverlap(fill(0, p[1]), fill(1, p[2]))))
+		}
+		scribble()
 	}
 	return out
+}
+
+// RadixOps(ops): an arbitrary interleaving of Append ([0, zoom, f', x, y]) and IsOverlap ([1, zoom, f', x, y]) on ONE tree of the third-party library;
+// returns the answers of the queries. Ill-shaped arguments, zooms outside 0..62 and a query before the first Append (the library indexes a nil slice)
+// are answered with Nil.
+func callRadixOps(a []w.Val) w.Val {
+	ops, ok := a[0].(w.List)
+	if !ok || len(ops) == 0 {
+		return w.Nil{}
+	}
+	tr := tree.CreateTree(tree.Create3DTable())
+	out := make(w.List, 0, len(ops))
+	for i, o := range ops {
+		l, isList := o.(w.List)
+		if !isList || len(l) != 5 {
+			return w.Nil{}
+		}
+		kind, isInt := l[0].(w.Int)
+		if !isInt || !kind.V.IsInt64() || (kind.V.Int64() != 0 && kind.V.Int64() != 1) || (i == 0 && kind.V.Int64() != 0) {
+			return w.Nil{}
+		}
+		z, f, x, y, ok := key4(w.List(l[1:]))
+		if !ok {
+			return w.Nil{}
+		}
+		if kind.V.Int64() == 0 {
+			tr.Append(tree.Indexs{f, x, y}, tree.ZoomSetLevel(z), "v")
+		} else {
+			out = append(out, w.B(tr.IsOverlap(tree.Indexs{f, x, y}, tree.ZoomSetLevel(z))))
+		}
+	}
+	return out
+}
+
+// operation sequences for RadixOps: keys shaped like the detector's (f' = f + 2^(z-1)), adversarial keys sharing long prefixes, the empty key (zoom 0),
+// duplicate inserts, queries between the inserts (ancestors, descendants, siblings of stored keys, unrelated keys)
+func radixOpsCase(g *Gen, tags *[]string) w.Val {
+	type k4 struct{ z, f, x, y int64 }
+	var stored []k4
+	detKey := func() k4 {
+		v := randSVox(g)
+		return k4{v.h, v.f + pow2(v.h-1), v.x, v.y}
+	}
+	below := func(a k4, d int64) k4 {
+		if a.z+d > 60 {
+			d = 60 - a.z
+		}
+		n := pow2(d)
+		return k4{a.z + d, a.f<<uint(d) + g.Int63n(n), a.x<<uint(d) + g.Int63n(n), a.y<<uint(d) + g.Int63n(n)}
+	}
+	above := func(a k4, d int64) k4 {
+		if d > a.z {
+			d = a.z
+		}
+		return k4{a.z - d, a.f >> uint(d), a.x >> uint(d), a.y >> uint(d)}
+	}
+	flip := func(a k4) k4 { // differs from a in one bit of one coordinate, mostly near the end of the key (longest shared prefix)
+		if a.z == 0 {
+			return a
+		}
+		lvl := int64(0)
+		if g.Chance(0.3) {
+			lvl = g.Int63n(a.z)
+		} else if a.z > 1 {
+			lvl = g.Int63n(2)
+		}
+		switch g.Intn(3) {
+		case 0:
+			a.f ^= pow2(lvl)
+		case 1:
+			a.x ^= pow2(lvl)
+		default:
+			a.y ^= pow2(lvl)
+		}
+		return a
+	}
+	pick := func() k4 { return stored[g.Intn(len(stored))] }
+	newKey := func() k4 {
+		if len(stored) == 0 {
+			return detKey()
+		}
+		switch g.Intn(10) {
+		case 0, 1:
+			return detKey()
+		case 2:
+			return pick() // duplicate insert
+		case 3, 4:
+			return below(pick(), 1+g.Int63n(3))
+		case 5:
+			return above(pick(), 1+g.Int63n(3))
+		case 6, 7, 8:
+			return flip(pick())
+		}
+		return flip(below(pick(), zdiff(g)))
+	}
+	n := 4 + g.Intn(30)
+	if g.Chance(0.15) {
+		n = 40 + g.Intn(60)
+		*tags = append(*tags, "many-ops")
+	}
+	adversarial := g.Chance(0.4)
+	if adversarial {
+		*tags = append(*tags, "shared-prefix")
+	}
+	var ops w.List
+	emitOp := func(kind int64, k k4) { ops = append(ops, w.Ints([]int64{kind, k.z, k.f, k.x, k.y})) }
+	first := detKey()
+	if adversarial { // one deep key; everything else hangs off it
+		first = below(detKey(), g.Int63n(20))
+	}
+	stored = append(stored, first)
+	emitOp(0, first)
+	for len(ops) < n {
+		switch {
+		case g.Chance(0.03):
+			k := k4{0, 0, 0, 0}
+			if g.Chance(0.5) {
+				emitOp(0, k)
+				stored = append(stored, k)
+				*tags = append(*tags, "empty-key-insert")
+			} else {
+				emitOp(1, k)
+			}
+		case g.Chance(0.45):
+			k := newKey()
+			if !adversarial && g.Chance(0.3) {
+				k = detKey()
+			}
+			emitOp(0, k)
+			stored = append(stored, k)
+		default:
+			var q k4
+			switch g.Intn(6) {
+			case 0:
+				q = detKey()
+			case 1:
+				q = pick()
+			case 2:
+				q = below(pick(), 1+g.Int63n(4))
+			case 3:
+				q = above(pick(), 1+g.Int63n(4))
+			default:
+				q = flip(newKey())
+			}
+			emitOp(1, q)
+		}
+	}
+	return ops
 }
 
 // RadixTree(keys, queries): the third-party library by itself — Append every key (zoom, f', x, y), then IsOverlap for every query.
@@ -1021,6 +1203,7 @@ func init() {
 			&run.Fn{Name: "OverlapBoth", Invoke: callBoth},
 			&run.Fn{Name: "OverlapSequence", Invoke: callSeq},
 			&run.Fn{Name: "RadixTree", Invoke: callTree},
+			&run.Fn{Name: "RadixOps", Invoke: callRadixOps},
 		)
 		if n == 0 {
 			return
@@ -1168,9 +1351,14 @@ func init() {
 				fancyLists(g, s1, s2, &tags)
 				tags = append(tags, Tag("len=%d,%d", lenBucket(len(s1)), lenBucket(len(s2))))
 				emit("OverlapBoth", tags, out || len(s1) == 0 || len(s2) == 0, w.Strs(s1), w.Strs(s2))
-			case k >= 85 && k < 88: // the radix-tree library by itself
-				ks, qs := treeCase(g, &tags)
-				emit("RadixTree", append(tags, "tree"), false, ks, qs)
+			case k >= 85 && k < 88: // the radix-tree library by itself: batch form, and arbitrary operation sequences on one tree
+				if g.Chance(0.5) {
+					ks, qs := treeCase(g, &tags)
+					emit("RadixTree", append(tags, "tree"), false, ks, qs)
+				} else {
+					ops := radixOpsCase(g, &tags)
+					emit("RadixOps", append(tags, "tree-ops"), false, ops)
+				}
 			case k < 85: // the parser hook
 				a := randSVox(g)
 				s := a.sid()
@@ -1199,9 +1387,151 @@ func init() {
 // related consecutive calls: the same ID / list with one other argument changed, identical calls twice, the same lists permuted or swapped,
 // the same voxels through the other implementation
 func sequence(g *Gen) w.Val {
-	var calls w.List
+	// every history starts with the same two unrelated priming calls, so that a (shrunk) case replays identically in a fresh process:
+	// whatever one-entry state the implementation keeps is set by them, not by the cases that happened to run before
+	calls := w.List{
+		call("CheckSpatialIdsArrayOverlap", w.Strs([]string{"1/0/0/0"}), w.Strs([]string{"1/0/1/1"})),
+		call("CheckExtendedSpatialIdsOverlap", w.S("1/0/0/1/0"), w.S("1/1/1/1/0")),
+	}
 	var t []string
-	switch g.Intn(6) {
+	spPair := func(x, y string) { calls = append(calls, call("CheckSpatialIdsOverlap", w.S(x), w.S(y))) }
+	extPair := func(x, y string) { calls = append(calls, call("CheckExtendedSpatialIdsOverlap", w.S(x), w.S(y))) }
+	spArr := func(x, y []string) { calls = append(calls, call("CheckSpatialIdsArrayOverlap", w.Strs(x), w.Strs(y))) }
+	extArr := func(x, y []string) { calls = append(calls, call("CheckExtendedSpatialIdsArrayOverlap", w.Strs(x), w.Strs(y))) }
+	switch g.Intn(11) {
+	case 6: // the same indices and the same zoom DIFFERENCES at shifted absolute zooms (a memo keyed on index + zoom difference), both orders
+		a := randVox(g)
+		for a.h > 33 || a.v > 33 {
+			a = randVox(g)
+		}
+		b := deriveVox(g, a, &t)
+		for b.h > 33 || b.v > 33 {
+			b = deriveVox(g, a, &t)
+		}
+		sh, sv := g.Pick(0, 1, 1, 2), g.Pick(0, 1, 1, 2)
+		if sh == 0 && sv == 0 {
+			sv = 1
+		}
+		a2, b2 := a, b
+		a2.h, b2.h, a2.v, b2.v = a.h+sh, b.h+sh, a.v+sv, b.v+sv
+		extPair(a.ext(), b.ext())
+		extPair(b2.ext(), a2.ext())
+		extPair(a2.ext(), b2.ext())
+		extPair(b.ext(), a.ext())
+		extPair(a2.ext(), b.ext())
+		extArr([]string{a.ext(), b.ext()}, []string{b2.ext()})
+		extArr([]string{a2.ext()}, []string{b.ext(), a.ext()})
+		// spatial twin: same f', x, y one zoom further
+		c := randSVox(g)
+		for c.h > 33 {
+			c = randSVox(g)
+		}
+		d := deriveSVox(g, c, &t)
+		if d.h <= 34 {
+			c2, d2 := c, d
+			c2.h, c2.v, d2.h, d2.v = c.h+1, c.h+1, d.h+1, d.h+1
+			spPair(c.sid(), d.sid())
+			spPair(d2.sid(), c2.sid())
+			spPair(c2.sid(), d.sid())
+			spPair(c.sid(), d.sid())
+		}
+	case 7: // invalid-then-valid, valid-then-invalid, the identical invalid call repeated (a memo stored before validation)
+		a := randSVox(g)
+		b := deriveSVox(g, a, &t)
+		o := outOfDomainSVox(g)
+		bad := malformedNear(g, a, true)
+		hz := a
+		hz.h = hostileSpatialZoom(g) // the same f, x, y at a refused zoom
+		steps := [][2]string{{o.sid(), b.sid()}, {o.sid(), b.sid()}, {a.sid(), b.sid()}, {a.sid(), o.sid()}, {a.sid(), o.sid()}, {a.sid(), b.sid()},
+			{hz.sid(), b.sid()}, {a.sid(), b.sid()}, {hz.sid(), b.sid()}, {hz.sid(), b.sid()}, {bad, b.sid()}, {bad, b.sid()}, {a.sid(), b.sid()}, {b.sid(), bad}, {b.sid(), bad}, {b.sid(), a.sid()}}
+		lo, n := g.Intn(4), 6+g.Intn(10)
+		for i := lo; i < len(steps) && i < lo+n; i++ {
+			spPair(steps[i][0], steps[i][1])
+		}
+		// the same in the extended form
+		e := randVox(g)
+		f := deriveVox(g, e, &t)
+		eb := malformedNear(g, e, false)
+		ez := e
+		ez.v = hostileZoom(g)
+		for _, p := range [][2]string{{eb, f.ext()}, {eb, f.ext()}, {e.ext(), f.ext()}, {ez.ext(), f.ext()}, {ez.ext(), f.ext()}, {e.ext(), f.ext()}, {f.ext(), eb}, {f.ext(), e.ext()}} {
+			extPair(p[0], p[1])
+		}
+	case 8: // poisoning: a call that ends in an error after it has stored keys, then calls that must not see them
+		l1, _ := listPair(g, true, &t)
+		if len(l1) == 0 {
+			l1 = []vox{randSVox(g)}
+		}
+		var below []vox // descendants / relatives of members of l1
+		for i := 0; i < 1+g.Intn(3); i++ {
+			below = append(below, deriveSVox(g, l1[g.Intn(len(l1))], &t))
+		}
+		var other []vox // a first list of its own
+		for i := 0; i < 1+g.Intn(3); i++ {
+			other = append(other, randSVox(g))
+		}
+		badTail := []string{pickS(g, outOfDomainSVox(g).sid(), malformedNear(g, l1[0], true), SID(hostileSpatialZoom(g), 0, 0, 0))}
+		far := sids([]vox{randSVox(g)})
+		spArr(sids(l1), append(append([]string{}, far...), badTail...)) // error (unless `far` happens to hit) after l1 was stored
+		spArr(sids(other), sids(below))                               // must not see l1
+		spArr(sids(l1), sids(below))
+		spArr(append(sids(l1), badTail...), sids(below)) // error while storing the first list
+		spArr(sids(other), sids(below))
+		spArr(nil, sids(below))
+		spArr(sids(other), sids(below))
+		// extended twin: an error in the middle of the pair loop
+		e1, e2 := listPair(g, false, &t)
+		if len(e1) > 0 && len(e2) > 0 {
+			spoiled := append(exts(e2), malformedNear(g, e2[0], false))
+			extArr(exts(e1), spoiled)
+			extArr(exts(e1), exts(e2))
+			extArr(spoiled, exts(e1))
+			extArr(exts(e2), exts(e1))
+		}
+	case 9: // the caller's buffers: same lengths, every member replaced (the invoker reuses the same backing arrays, see callSeq)
+		l1, l2 := listPair(g, true, &t)
+		if len(l1) == 0 {
+			l1 = []vox{randSVox(g)}
+		}
+		if len(l2) == 0 {
+			l2 = []vox{deriveSVox(g, l1[0], &t)}
+		}
+		n1 := make([]vox, len(l1))
+		for i := range n1 {
+			n1[i] = randSVox(g)
+		}
+		n2 := make([]vox, len(l2))
+		for i := range n2 {
+			n2[i] = deriveSVox(g, n1[g.Intn(len(n1))], &t)
+		}
+		spArr(sids(l1), sids(l2))
+		spArr(sids(n1), sids(l2)) // same length as l1, other members, same second list
+		spArr(sids(n1), sids(n2))
+		spArr(sids(l1), sids(n2))
+		spArr(sids(l1), sids(l2))
+		spArr(sids(l1), sids(l2))
+		extArr(exts(l1), exts(l2))
+		extArr(exts(n1), exts(l2))
+		extArr(exts(n1), exts(n2))
+		extArr(exts(l1), exts(n2))
+	case 10: // all four functions interleaved on related voxels, each call repeated once somewhere later
+		a := randSVox(g)
+		b := deriveSVox(g, a, &t)
+		c := deriveSVox(g, b, &t)
+		var mine w.List
+		add := func(v w.Val) { mine = append(mine, v) }
+		add(call("CheckSpatialIdsOverlap", w.S(a.sid()), w.S(b.sid())))
+		add(call("CheckExtendedSpatialIdsOverlap", w.S(a.ext()), w.S(c.ext())))
+		add(call("CheckSpatialIdsArrayOverlap", w.Strs(sids([]vox{a, c})), w.Strs(sids([]vox{b}))))
+		add(call("CheckExtendedSpatialIdsArrayOverlap", w.Strs(exts([]vox{b})), w.Strs(exts([]vox{c, a}))))
+		add(call("CheckSpatialIdsOverlap", w.S(c.sid()), w.S(a.sid())))
+		add(call("CheckExtendedSpatialIdsOverlap", w.S(b.ext()), w.S(c.ext())))
+		k := len(mine)
+		for i := 0; i < k; i++ {
+			mine = append(mine, mine[g.Intn(k)])
+		}
+		g.R.Shuffle(len(mine), func(i, j int) { mine[i], mine[j] = mine[j], mine[i] })
+		calls = append(calls, mine...)
 	case 0: // extended pair: the same first ID against variants of the second at other zooms, then repeated and swapped
 		a := randVox(g)
 		b := deriveVox(g, a, &t)
